@@ -38,7 +38,7 @@ MODEL_NOTE = "the theorems are about the Coq model; they reach the Go code throu
 PROPS = {
     "C01": P("P_C01.v", ["C01"], T_EVAL,
         "the semantic laws of the documented semantics (selector steps through maps, structs, slices, pointers and interfaces; operators per value class; representation transparency) are theorems about the model; the model is the independent interpreter the implementation is compared with on the product generator, and the same logical document in six Go representations must give one outcome",
-        [MODEL_NOTE, "the single normalising specification c01_model_meets_spec is not proved (extended goal); *interface{} is not treated as a representation of a document (the lookup does not alternate pointer and interface unwrapping)"],
+        [MODEL_NOTE, "an independent specification of the documented semantics (jeval, coq/JsonEval.v) is proved equal to the model's Evaluate for JSON documents only (json_eval, json_eval_unknown: every well-formed expression, every document, with or without an unknown value, no hook) and compared with the implementation on decoded documents; for the typed Go universe the model itself is the reference; *interface{} is not treated as a representation of a document (the lookup does not alternate pointer and interface unwrapping)"],
         reference="the Coq model of the documented semantics (coq/Eval.v), validated operator by operator"),
     "C02": P("P_C02.v", ["C02"], T_EVAL,
         "decimal/hex/octal/binary integer literals of every canonical digit list parse to exactly the value they denote up to the int64/uint64 bounds and are range errors beyond (proved over digit lists, integers are Z); equality in the model compares in the value's own class; the float parser is an exact rational -> single correct rounding (validated against strconv incl. the double-rounding witness, not proved against IEEE-754)",
